@@ -1,5 +1,5 @@
 SPECIFICATION Spec
-CONSTANTS Repaired = {1, 2, 4, 5, 7, 9, 10, 11}
+CONSTANTS Repaired = {1, 2, 4, 5, 7, 9, 10, 11, 12, 13, 14, 16}
 INVARIANTS Judge
 POSTCONDITION AllConsumed
 CHECK_DEADLOCK FALSE
